@@ -273,13 +273,66 @@ def _shape(cs):
   return "+".join(sorted(kinds)) or "plain"
 
 
+# ------------------------------------------------------------------ hand-written connect statements the IR cannot express
+
+def hand_cases():
+  """(name, construct body, expectation): expectation = ("nets", {member name: writer name}, function in_ -> {signal: value})
+  | ("error",)  -- written Python slice forms: omitted bounds mean 0 / nbits (as for Bits values), a step is not a slice of adjacent bits"""
+  base = ["s.in_ = InPort( Bits8 )", "s.o4 = OutPort( Bits4 )", "s.p4 = OutPort( Bits4 )"]
+  return [
+    ("open-slices", base + ["s.o4 //= s.in_[:4]", "s.p4 //= s.in_[4:]"], ("sim", lambda v: {"o4": v & 15, "p4": v >> 4})),
+    ("open-slices-flipped", base + ["connect( s.in_[4:], s.p4 )", "connect( s.in_[:4], s.o4 )"], ("sim", lambda v: {"o4": v & 15, "p4": v >> 4})),
+    ("closed-slices(control)", base + ["s.o4 //= s.in_[0:4]", "s.p4 //= s.in_[4:8]"], ("sim", lambda v: {"o4": v & 15, "p4": v >> 4})),
+    ("open-slice-of-slice", base + ["s.o4 //= s.in_[2:8][:4]", "s.p4 //= s.in_[0:6][2:]"], ("sim", lambda v: {"o4": (v >> 2) & 15, "p4": (v >> 2) & 15})),
+    ("stepped-slice", base + ["s.o4 //= s.in_[0:4:2]", "s.p4 //= s.in_[4:8]"], ("error",)),
+  ]
+
+
+def check_hand(acc):
+  from pymtl3 import DefaultPassGroup
+  for name, body, exp in hand_cases():
+    src = "from pymtl3 import *\nclass HandC( Component ):\n  def construct( s ):\n" + "".join("    " + l + "\n" for l in body)
+    for hp in (0, 1, 2):
+      mult = (1, 7919, 104729)[hp]
+      acc.count("evaluations"); acc.count("hand_cases")
+      case = dict(kind="hand", name=name, hp=hp)
+      with seams.hash_seam(lambda o, i: (i * mult + hp) % 1000003):
+        mod = ir.load_src(src)
+        try:
+          top = mod.HandC()
+          top.elaborate()
+          err = None
+        except Exception as ex:
+          err = ex
+        finally:
+          ir.unload(mod.__name__)
+      if exp[0] == "error":
+        if err is None: acc.violation(f"hand:accepted:{name}", case, "rejected (a stepped slice is not a slice of adjacent bits)", "elaborated", name)
+        elif not type(err).__name__.endswith("Error") or isinstance(err, (TypeError, KeyError, AttributeError, AssertionError)):
+          acc.violation(f"hand:crashed:{name}", case, "a connection error", f"{type(err).__name__}: {str(err)[:100]}", name)
+        continue
+      if err is not None:
+        acc.violation(f"hand:raised:{name}", case, "elaborates", f"{type(err).__name__}: {str(err)[:100]}", name); continue
+      top.apply(DefaultPassGroup())
+      for v in (0, 0x5A, 0xC3, 0xFF, 0x0F):
+        top.in_ @= v
+        top.sim_tick()
+        want = exp[1](v)
+        got = {k: int(getattr(top, k)) for k in want}
+        if got != want:
+          acc.violation(f"hand:wrong-value:{name}", dict(case, v=v), want, got, name); break
+
+
 def shards(tier):
   k = 64
-  return [(i, k) for i in range(k)]
+  return [(i, k) for i in range(k)] + [("hand",)]
 
 
 def run_shard(shard, tier, seed):
   acc = Acc()
+  if shard[0] == "hand":
+    check_hand(acc)
+    return acc
   for j, cs in enumerate(conn_sets(tier)):
     if j % shard[1] != shard[0]: continue
     check_set(cs, tier, acc)
@@ -289,6 +342,9 @@ def run_shard(shard, tier, seed):
 
 def replay(case):
   acc = Acc()
+  if case.get("kind") == "hand":
+    check_hand(acc)
+    return [(v["sig"], v["expected"], v["observed"], v["msg"]) for v in acc.violations if v["case"]["name"] == case["name"]][:5]
   cs = [(w, (ir.tup(p[0]), ir.tup(p[1]))) for w, p in case["conns"]]
   check_set(cs, "quick", acc)
   return [(v["sig"], v["expected"], v["observed"], v["msg"]) for v in acc.violations][:5]
